@@ -393,7 +393,16 @@ def _pair(t):
 
 def _sphere(t):
     c, r = t
-    return np.concatenate([np.asarray(c), np.asarray(r)[..., None]], axis=-1)
+    c, r = np.asarray(c), np.asarray(r)
+    if r.shape != c.shape[:-1]:
+        # radii that do not have one entry per centre: hand the radii over as
+        # they are, the driver's shape check reports them
+        return r
+    return np.concatenate([c, r[..., None]], axis=-1)
+
+
+def _bsp(k):
+    return lambda X: np.asarray(X.boundary_sphere_parameters()[k])
 
 
 subspace_queries = _object_queries("H.Subspace", [
@@ -403,6 +412,8 @@ subspace_queries = _object_queries("H.Subspace", [
     ("sphere_parameters(halfspace)", lambda X: _sphere(X.sphere_parameters("halfspace")), ("num", 1e-7)),
     ("reflection_across", lambda X: X.reflection_across().proj_data, ("mat", 1e-7), lambda n: n == 2),
     ("spacelike_complement", lambda X: X.spacelike_complement().proj_data, ("rows", 1e-7), lambda n: n == 2),
+    ("boundary_sphere_parameters.centre", _bsp(0), ("num", 1e-7), lambda n: n == 2),
+    ("boundary_sphere_parameters.radius", _bsp(1), ("num", 1e-7), lambda n: n == 2),
 ], min_dim=2)
 
 hyperplane_queries = _object_queries("H.Hyperplane", [
@@ -410,6 +421,8 @@ hyperplane_queries = _object_queries("H.Hyperplane", [
     ("reflection_across", lambda X: X.reflection_across().proj_data, ("mat", 1e-7)),
     ("spacelike_complement", lambda X: X.spacelike_complement().proj_data, ("rows", 1e-7)),
     ("sphere_parameters(poincare)", lambda X: _sphere(X.sphere_parameters("poincare")), ("num", 1e-7)),
+    ("boundary_sphere_parameters.centre", _bsp(0), ("num", 1e-6)),
+    ("boundary_sphere_parameters.radius", _bsp(1), ("num", 1e-6)),
 ], min_dim=2)
 
 pointpair_queries = _object_queries("H.PointPair", [
@@ -448,6 +461,8 @@ geodesic_queries = _object_queries("H.Geodesic", [
     ("ideal_basis_coords(poincare)", lambda X: X.ideal_basis_coords("poincare"), ("num", 1e-9)),
     ("reflection_across", lambda X: X.reflection_across().proj_data, ("mat", 1e-7), lambda n: n == 2),
     ("sphere_parameters(poincare)", lambda X: _sphere(X.sphere_parameters("poincare")), ("num", 1e-7)),
+    ("boundary_sphere_parameters.centre", _bsp(0), ("num", 1e-7), lambda n: n == 2),
+    ("boundary_sphere_parameters.radius", _bsp(1), ("num", 1e-7), lambda n: n == 2),
 ], min_dim=2)
 
 tangent_queries = _object_queries("H.TangentVector", [
@@ -744,6 +759,88 @@ segment_special = _line_special("H.Segment")
 geodesic_special = _line_special("H.Geodesic")
 
 
+# ---------------------------------------------------------------------------
+# round 7: Euclidean sphere helpers on stacks of point sets; composite
+# predicates whose answer at an index concerns that unit alone
+
+def sphere_helpers(rng, n, shape, variant):
+    """utils.sphere_through (k+2 points of R^(k+1)) and utils.circle_through on
+    stacks: one centre and one radius per point set, whatever the composite
+    shape (size-1 axes included).  (seeded change C04-r7-2: the radii were
+    np.squeeze'd without an axis and lost every size-1 composite axis.)"""
+    from geometry_tools import utils
+    k = n                       # n+1 points of R^n
+    for _ in range(50):
+        pts = rng.normal(size=shape + (k + 1, k))
+        d = pts[..., 1:, :] - pts[..., :1, :]
+        if np.all(np.linalg.cond(d) < 50):
+            break
+    tri = rng.normal(size=shape + (3, 2))
+
+    def call(sel):
+        p = _sl(pts, sel)
+        c, r = utils.sphere_through(p)
+        t = _sl(tri, sel)
+        c2, r2 = utils.circle_through(t[..., 0, :], t[..., 1, :], t[..., 2, :])
+        return {"sphere.centre": np.asarray(c), "sphere.radius": np.asarray(r),
+                "circle.centre": np.asarray(c2), "circle.radius": np.asarray(r2)}
+
+    def hand(i, parts):
+        c, r = np.asarray(parts["sphere.centre"]), np.asarray(parts["sphere.radius"])
+        if c.shape != (k,) or r.shape != ():
+            return [("equidistant", np.inf, 1e-7)]
+        dist = np.linalg.norm(pts[i] - c, axis=-1)
+        return [("equidistant", float(np.max(np.abs(dist - r))) / (1.0 + float(r)), 1e-7)]
+
+    return Spec({"points": pts, "triangles": tri}, call,
+                {"sphere.centre": ("num", 1e-8), "sphere.radius": ("num", 1e-8),
+                 "circle.centre": ("num", 1e-7), "circle.radius": ("num", 1e-7)}, hand=hand)
+
+
+SIGN_MEMBERS = ("all-positive", "all-negative", "mixed", "all-negative", "all-positive",
+                "vertex-at-infinity", "mixed")
+
+
+def polygon_predicates(rng, n, shape, variant):
+    """Polygon.in_standard_chart() on composites whose units are given with
+    representatives of different sign patterns (all positive, all negative,
+    mixed, a vertex at infinity): the answer at an index is a statement about
+    that polygon's own vertices.  (seeded change C04-r7-3: every polygon was
+    compared with the sign pattern of polygon 0.)"""
+    hyp = bool(variant % 2)
+    kind = "H.Polygon" if hyp else "P.Polygon"
+    m = 3 + (variant // 2) % 3
+    raw = G.draw(rng, "H.Polygon", max(n, 2), shape, nv=m)       # positive representatives
+    V = np.array(raw["X"], copy=True)
+    cls = np.empty(shape, dtype=object)
+    for k, i in enumerate(np.ndindex(*shape)):
+        c = SIGN_MEMBERS[(k + variant) % len(SIGN_MEMBERS)]
+        if c == "vertex-at-infinity" and hyp:
+            c = "mixed"
+        if c == "all-negative":
+            V[i] = -V[i]
+        elif c == "mixed":
+            flip = rng.random(m) < 0.5
+            flip[0], flip[1] = bool(k % 2), not bool(k % 2)
+            V[i] = V[i] * np.where(flip, -1.0, 1.0)[:, None]
+        elif c == "vertex-at-infinity":
+            V[i][int(rng.integers(m)), 0] = 0.0
+        cls[i] = c
+
+    def call(sel):
+        X = G.class_of(kind)(_sl(V, sel))
+        return {"in_standard_chart": np.asarray(X.in_standard_chart())}
+
+    def hand(i, parts):
+        sg = np.sign(V[i][:, 0])
+        want = bool(np.all(sg == 1) or np.all(sg == -1))
+        return [("own-vertices", 0.0 if bool(np.asarray(parts["in_standard_chart"])) == want else 1.0, 0.5)]
+
+    return Spec({"vertices": V, "member_classes": np.array(cls.tolist(), dtype=str)}, call,
+                {"in_standard_chart": ("exact", 0)}, hand=hand,
+                sig=(kind,) + tuple(sorted(set(cls.reshape(-1).tolist()))))
+
+
 ENTRIES = [
     ("Transformation.eigenvector(ev)", eigenvector_given, 1),
     ("Transformation.commute", commute, 1),
@@ -779,5 +876,10 @@ ENTRIES += [
     ("BoundaryArc{special-members}", boundary_arc_special, 2),
     ("Segment{special-members}", segment_special, 2),
     ("Geodesic{special-members}", geodesic_special, 2),
+]
+# round 7
+ENTRIES += [
+    ("utils.sphere_through/circle_through", sphere_helpers, 1),
+    ("Polygon.in_standard_chart", polygon_predicates, 2),
 ]
 PENDING_ENTRIES = []
